@@ -1203,7 +1203,7 @@ def check_C15(ctx):
                 gens[-1] += 'k'          # key exhaustion in this generation
         jobs.append((gens, {}))
     # one long history of small generations (tables that are appended to at every initialisation overflow only then)
-    jobs.append((['%s:%d%s' % (k_, rng.choice((1, 1, 2, 3)), ':' if k_ == 'g' else '') for k_ in (rng.choice('ag') for _ in range(200 if ctx.quick else 800))], {}))
+    jobs.append((['g:%d:' % rng.choice((1, 1, 2, 3)) for _ in range(300 if ctx.quick else 1200)], {}))
     nenv = 40 if ctx.quick else 400
     interesting = [c for c in cases if c[0] and '\x00' not in c[0]]
     for h in range(nenv):
